@@ -52,6 +52,7 @@ struct Program {
   std::unique_ptr<cfg_t> cfg;
   std::vector<var_t> ints, wides, bools, arrs;
   std::vector<z_number> arr_elem_size; // per array: the uniform constant element size
+  std::vector<bool> arr_singleton;     // per array: one cell at offset 0 (only these receive strong updates)
   std::vector<label_t> labels;
   int64_t n_asserts = 0;
   bool structured = true;
@@ -211,7 +212,7 @@ public:
     kinds.push_back(9); // assume in the middle of a block
     if (cap(CAP_UNREACHABLE)) kinds.push_back(10);
     if (cap(CAP_BOOL) && !p.bools.empty()) { kinds.push_back(11); kinds.push_back(11); kinds.push_back(11); }
-    if (cap(CAP_ARRAY) && !p.arrs.empty()) { kinds.push_back(12); kinds.push_back(12); kinds.push_back(12); }
+    if (cap(CAP_ARRAY) && !p.arrs.empty()) for (int q = 0; q < 9; q++) kinds.push_back(12);
     if (cap(CAP_CALL_INTRA)) kinds.push_back(13);
     int k = kinds[t.pick((unsigned)kinds.size())];
     switch (k) {
@@ -329,30 +330,39 @@ public:
     unsigned ai = t.pick((unsigned)p.arrs.size());
     const var_t &a = p.arrs[ai];
     z_number es = p.arr_elem_size[ai];
-    auto const_index = [&]() { return lin_t(es * z_number((int64_t)t.pick(6))); };
+    bool wide = es == z_number(8) && o.int_width != 64;
+    auto svar = [&]() -> const var_t & { return wide ? p.wides[t.pick((unsigned)p.wides.size())] : ivar(); };
+    auto sval = [&]() -> lin_t { return t.pick(3) == 0 ? lin_t(cnst()) : lin_t(svar()); };
+    bool single = p.arr_singleton[ai];
+    auto const_index = [&]() { return lin_t(es * z_number((int64_t)(single ? 0 : t.pick(6)))); };
     auto index = [&]() -> lin_t {
-      if (t.pick(3) == 0)
+      if (single)
+        return lin_t(z_number(0));
+      unsigned k = t.pick(6);
+      if (k == 0)
         return lin_t(ivar()); // symbolic index (may be unaligned -> truncated concretely)
+      if (k == 1 || k == 2)
+        return lin_t(es, ivar()); // aligned symbolic index es*v
       return const_index();
     };
     unsigned k = t.pick(8);
     switch (k) {
-    case 0: { z_number lb = es * z_number((int64_t)t.pick(3)); z_number ub = lb + es * z_number((int64_t)t.pick(6));
-      b.array_init(a, lin_t(lb), lin_t(ub), var_or_const(), lin_t(es)); break; }
-    case 1: b.array_store(a, index(), var_or_const(), lin_t(es)); break;
-    case 2: b.array_store(a, const_index(), var_or_const(), lin_t(es), true); break;
+    case 0: { z_number lb = es * z_number((int64_t)(single ? 0 : t.pick(3))); z_number ub = lb + es * z_number((int64_t)(single ? 0 : t.pick(6)));
+      b.array_init(a, lin_t(lb), lin_t(ub), sval(), lin_t(es)); break; }
+    case 1: b.array_store(a, index(), sval(), lin_t(es)); break;
+    case 2: b.array_store(a, const_index(), sval(), lin_t(es), single && t.flag()); break;
     case 3:
-    case 4: b.array_load(ivar(), a, index(), lin_t(es)); break;
-    case 5: { z_number lb = es * z_number((int64_t)t.pick(3)); z_number ub = lb + es * z_number((int64_t)t.pick(5));
-      b.array_store_range(a, lin_t(lb), lin_t(ub), var_or_const(), lin_t(es)); break; }
+    case 4: b.array_load(svar(), a, index(), lin_t(es)); break;
+    case 5: { z_number lb = es * z_number((int64_t)(single ? 0 : t.pick(3))); z_number ub = lb + es * z_number((int64_t)(single ? 0 : t.pick(5)));
+      b.array_store_range(a, lin_t(lb), lin_t(ub), sval(), lin_t(es)); break; }
     case 6:
       if (p.arrs.size() > 1) {
         unsigned bi = (ai + 1) % p.arrs.size();
-        if (p.arr_elem_size[bi] == es) { b.array_assign(a, p.arrs[bi]); break; }
+        if (p.arr_elem_size[bi] == es && p.arr_singleton[bi] == single) { b.array_assign(a, p.arrs[bi]); break; }
       }
-      b.array_store(a, index(), var_or_const(), lin_t(es));
+      b.array_store(a, index(), sval(), lin_t(es));
       break;
-    default: b.array_load(ivar(), a, const_index(), lin_t(es)); break;
+    default: b.array_load(svar(), a, const_index(), lin_t(es)); break;
     }
   }
 
@@ -363,6 +373,15 @@ public:
     p.labels.push_back(l);
     if (blocks_left > 0)
       blocks_left--;
+    if (next_label == 1 && cap(CAP_ARRAY)) {
+      // most programs initialise their arrays in the entry block (a load of a
+      // never-written cell is outside the concrete model)
+      for (unsigned ai = 0; ai < p.arrs.size(); ai++)
+        if (t.pick(4) != 3) {
+          z_number es = p.arr_elem_size[ai];
+          b.array_init(p.arrs[ai], lin_t(z_number(0)), lin_t(es * z_number((int64_t)(p.arr_singleton[ai] ? 0 : 2 + t.pick(6)))), lin_t(cnst()), lin_t(es));
+        }
+    }
     if (with_stmts) {
       unsigned n = t.pick(o.max_stmts_per_block + 1);
       for (unsigned i = 0; i < n; i++)
@@ -500,10 +519,16 @@ public:
     }
     if (cap(CAP_ARRAY)) {
       unsigned na = 1 + t.pick(2);
-      static const int64_t sizes[] = {4, 1, 2, 8};
+      // the element size is the byte width of the scalars stored/loaded (type_checker.hpp: "TODO: check
+      // that e_sz is the same number that lhs's bitwidth"; array_adaptive gives a cell the width 8*size)
       for (unsigned i = 0; i < na; i++) {
         p.arrs.push_back(var_t(vf[o.name_prefix + "A" + std::to_string(i)], crab::ARR_INT_TYPE, 0));
-        p.arr_elem_size.push_back(z_number(sizes[t.pick(4)]));
+        bool wide = !p.wides.empty() && t.pick(4) == 3;
+        p.arr_elem_size.push_back(z_number((int64_t)(wide ? 8 : o.int_width / 8)));
+        // is_strong_update=true is the client's promise that the store overwrites the whole
+        // array content (cfg.hpp: "If unknown set to false"; array smashing then overwrites its
+        // summary): only single-cell arrays get it
+        p.arr_singleton.push_back(t.pick(5) == 4);
       }
     }
   }
